@@ -179,7 +179,7 @@ Proof.
     pose proof (refuse_real o st outf (fst ps) _ _ _ RR) as E. cbn [mret] in HR. inversion HR as [[E1 E2 E3]].
     cbn [mret]. eexists. eexists. split; [reflexivity|]. rewrite <- E1, E. reflexivity. }
   destruct (exists_ (fs w) ftp && negb (is_regular_file (fs w) ftp)); [apply (Refuse true); exact H|].
-  destruct (N.eqb (N.land (get_permissions (fs w) outf) write_mask) 0 && match read_only o with ROFail => true | _ => false end);
+  destruct (N.eqb (N.land (effective_perms st (fs w) outf) write_mask) 0 && match read_only o with ROFail => true | _ => false end);
     [apply (Refuse true); exact H|].
   clear Refuse.
   rewrite mbind_eq in H. rewrite mbind_eq.
@@ -191,10 +191,10 @@ Proof.
   rewrite mbind_eq in H. rewrite mbind_eq. rewrite apply_patch_dry.
   destruct (mlift (apply_patch o input_lines p2) w3) as [[ar|e] w4]; [|discriminate].
   destruct (tail_real o st ftp outf _ _ _ ar s2 _ _ _ H) as [Hs Hs2]. cbn [fst snd] in Hs, Hs2. subst s_r.
-  destruct (tail_dry o st ftp outf (get_permissions (fs w) outf)
-              (if N.eqb (get_permissions (fs w) outf) perms_unknown && match poper p with OpRename | OpCopy => true | _ => false end
-               then get_permissions (fs w) ftp else get_permissions (fs w) outf)
-              (N.eqb (N.land (get_permissions (fs w) outf) write_mask) 0) ar s2 w4) as (st_d & w' & E & Hd).
+  destruct (tail_dry o st ftp outf (effective_perms st (fs w) outf)
+              (if N.eqb (effective_perms st (fs w) outf) perms_unknown && match poper p with OpRename | OpCopy => true | _ => false end
+               then get_permissions (fs w) ftp else effective_perms st (fs w) outf)
+              (N.eqb (N.land (effective_perms st (fs w) outf) write_mask) 0) ar s2 w4) as (st_d & w' & E & Hd).
   exists st_d, w'. split; [exact E|congruence].
 Qed.
 
